@@ -103,6 +103,11 @@ Join(prefix, rest) == IF prefix = "" THEN rest ELSE prefix \o "/" \o rest
 CleanPrefix(p) == CASE p = "p/" -> "p" [] p = "a//b" -> "a/b" [] p = "./a" -> "a" [] OTHER -> p
 ObjectKey(prefix, kind, hash, mode) ==
     Join(CleanPrefix(prefix), (IF kind = "cas" /\ mode = "zstd" THEN "cas.v2" ELSE kind) \o "/" \o HH(hash) \o "/" \o hash)
+\* Azure blob names: the backend puts the configured prefix - as configured, not cleaned - in front of the object
+\* key, which already starts with the (cleaned) prefix.  With --azblob.prefix=team the blobs of every 2.x
+\* release are team/team/cas.v2/...: odd, but that is where deployed containers hold their data, so that is
+\* what "stays compatible" means here.
+AzureBlobName(prefix, kind, hash, mode) == Join(prefix, ObjectKey(prefix, kind, hash, mode))
 \* HTTP backend: path below the configured base URL
 HttpPath(kind, hash, mode) == "/" \o (IF kind = "cas" /\ mode = "zstd" THEN "cas.v2" ELSE kind) \o "/" \o hash
 \* gRPC backend: REAPI has no raw key space, raw entries travel as action results (a deliberate
@@ -212,6 +217,7 @@ NameRow(kind, mode, prefix) ==
      file |-> FileName(kind, "HHASH", "SSIZE", WrittenLegacy(kind, mode), "SUFFIX"),
      file_other |-> IF kind = "cas" THEN FileName(kind, "HHASH", "SSIZE", ~WrittenLegacy(kind, mode), "SUFFIX") ELSE "",
      object |-> ObjectKey(prefix, kind, "HHASH", mode),
+     azure |-> AzureBlobName(prefix, kind, "HHASH", mode),
      http |-> HttpPath(kind, "HHASH", mode),
      grpc_read |-> GrpcRead(kind, "HHASH", "SSIZE", mode),
      grpc_write |-> GrpcWrite(kind, "HHASH", "SSIZE", mode)]
